@@ -684,6 +684,21 @@ func setField(tokens []lexer.Token, strct reflect.Value, field structLexerField,
 				}
 				f.Set(reflect.Append(f, eltValue))
 			}
+		} else if sliceElemType.Implements(textUnmarshalerType) || reflect.PtrTo(sliceElemType).Implements(textUnmarshalerType) {
+			if sliceElemType.Kind() == reflect.Ptr {
+				sliceElemType = sliceElemType.Elem()
+			}
+			for _, v := range fieldValue {
+				d := reflect.New(sliceElemType).Interface().(encoding.TextUnmarshaler)
+				if err := d.UnmarshalText([]byte(v.Interface().(string))); err != nil {
+					return Wrapf(pos, err, "failed to unmarshal text")
+				}
+				eltValue := reflect.ValueOf(d)
+				if f.Type().Elem().Kind() != reflect.Ptr {
+					eltValue = eltValue.Elem()
+				}
+				f.Set(reflect.Append(f, eltValue))
+			}
 		} else {
 			fieldValue, err = conform(sliceElemType, fieldValue)
 			if err != nil {
